@@ -107,7 +107,7 @@ SWEEP_EVERY = 120  # about one run in SWEEP_EVERY is a complete single-pre-empti
 
 
 def generate(rng, tier, idx, force=None):
-    if rng.random() < 1.0 / SWEEP_EVERY:
+    if rng.random() < (1.0 / SWEEP_EVERY if tier == "quick" else 1.0 / 50):
         # systematic sweep: the first thread is pre-empted at EVERY one of its hot points in turn (one
         # schedule per point, enumerated inside this run); the other thread then runs to completion
         # (or, with sweep_j, hands back at its j-th hot point)
